@@ -40,17 +40,17 @@ class ClassWorld:
         self.genv.setdefault("Op", Tag("Op"))
         if "Op" in self.classes:
             self.genv["Op"] = Tag("Op")
-        # module-level constants (tables, strings, numbers) are evaluated; anything else stays an opaque tag
+        # module-level constants (tables, strings, numbers, tuples of classes, derived tables) are evaluated in source order,
+        # as at import time; whatever the evaluator cannot follow stays an opaque tag
         for m in modules:
             for st in m.tree.body:
                 if isinstance(st, (ast.Assign, ast.AnnAssign)) and getattr(st, "value", None) is not None:
                     tgts = st.targets if isinstance(st, ast.Assign) else [st.target]
-                    if not isinstance(st.value, (ast.Dict, ast.List, ast.Tuple, ast.Constant, ast.BinOp, ast.Set,
-                                                 ast.Attribute, ast.Name, ast.UnaryOp, ast.BoolOp, ast.Compare)) and not (
-                        isinstance(st.value, ast.Call) and dotted(st.value.func) in ("re.compile",)
-                    ):
-                        continue
+                    if isinstance(st.value, ast.Call) and dotted(st.value.func) not in (
+                            "re.compile", "dict", "tuple", "list", "set", "frozenset", "sorted", "zip", "range", "len", "max", "min", "sum", "str", "int"):
+                        continue  # objects built at import time (Config(), combinators, TypeVar...) stay opaque here
                     try:
+                        self.ev.steps = 0
                         v = self.ev.eval(st.value, self.genv)
                     except (Undecided, Exception):
                         continue
@@ -61,23 +61,39 @@ class ClassWorld:
             self.genv[exc] = (lambda exc: lambda *a: Tag(exc))(exc)
 
     # -- class structure -------------------------------------------------------------------
+    def _bases(self, name: str) -> List[str]:
+        out = []
+        for b in self.classes[name].bases:
+            bn = b
+            if isinstance(bn, ast.Subscript):  # Generic[T], Array1D[BoolExpr]
+                bn = bn.value
+            d = dotted(bn)
+            if d and d.split(".")[-1] in self.classes:
+                out.append(d.split(".")[-1])
+        return out
+
     def mro(self, name: str) -> List[str]:
-        out: List[str] = []
-        cur: Optional[str] = name
-        seen = set()
-        while cur is not None and cur in self.classes and cur not in seen:
-            seen.add(cur)
-            out.append(cur)
-            nxt = None
-            for b in self.classes[cur].bases:
-                bn = b
-                if isinstance(bn, ast.Subscript):
-                    bn = bn.value
-                d = dotted(bn)
-                if d and d.split(".")[-1] in self.classes:
-                    nxt = d.split(".")[-1]
+        """C3 linearisation over the classes of the loaded modules (mixins and multiple bases included)"""
+        cache = self.__dict__.setdefault("_mro_cache", {})
+        if name in cache:
+            return list(cache[name])
+        if name not in self.classes:
+            return []
+        bases = self._bases(name)
+        seqs = [self.mro(b) for b in bases] + [list(bases)]
+        out = [name]
+        seqs = [q for q in seqs if q]
+        while seqs:
+            for q in seqs:
+                cand = q[0]
+                if not any(cand in r[1:] for r in seqs):
                     break
-            cur = nxt
+            else:
+                raise Undecided(f"inconsistent class hierarchy at {name}")
+            out.append(cand)
+            seqs = [[x for x in q if x != cand] for q in seqs]
+            seqs = [q for q in seqs if q]
+        cache[name] = list(out)
         return out
 
     def find_method(self, cls: str, name: str, after: Optional[str] = None):
@@ -91,16 +107,57 @@ class ClassWorld:
                 return c, m.funcs[q]
         return None, None
 
+    def namedtuple_fields(self, cls: str) -> Optional[List[str]]:
+        """field names if `cls` is declared as `class X(NamedTuple)` with annotated fields"""
+        node = self.classes.get(cls)
+        if node is None or not any((dotted(b) or "").split(".")[-1] == "NamedTuple" for b in node.bases):
+            return None
+        return [st.target.id for st in node.body if isinstance(st, ast.AnnAssign) and isinstance(st.target, ast.Name)]
+
+    def _class_namespace(self, cls: str) -> Dict[str, Any]:
+        """the names assigned in the class body, evaluated in order in the class scope (module globals + earlier names)"""
+        cache = self.__dict__.setdefault("_class_ns", {})
+        if cls in cache:
+            return cache[cls]
+        ns: Dict[str, Any] = {}
+        cache[cls] = ns
+        for st in self.classes[cls].body:
+            if isinstance(st, ast.Assign):
+                names = [t.id for t in st.targets if isinstance(t, ast.Name)]
+                value = st.value
+            elif isinstance(st, ast.AnnAssign) and isinstance(st.target, ast.Name) and st.value is not None:
+                names, value = [st.target.id], st.value
+            else:
+                continue
+            if not names:
+                continue
+            env = dict(self.genv)
+            env.update({k: v for k, v in ns.items() if not isinstance(v, Undecided)})
+            try:
+                v: Any = self.ev.eval(value, env)
+            except Undecided as ex:
+                v = ex
+            for nm in names:
+                ns[nm] = v
+        return ns
+
     def _resolver(self, obj: Obj, attr: str) -> Any:
         owner, fn = self.find_method(obj.attrs["__class__"], attr)
+        if fn is None and "__fields__" in obj.attrs and attr in ("__iter__", "__getitem__", "__len__"):
+            vals = [obj.attrs[f] for f in obj.attrs["__fields__"]]
+            if attr == "__iter__":
+                return lambda: list(vals)
+            if attr == "__len__":
+                return lambda: len(vals)
+            return lambda k: vals[k] if isinstance(k, (int, slice)) and not isinstance(k, bool) else (_ for _ in ()).throw(Undecided("namedtuple index"))
         if fn is None:
-            # class-level constants (e.g. a lookup table defined in the class body)
+            # class-level constants (e.g. a lookup table defined in the class body, possibly derived from an earlier one)
             for c in self.mro(obj.attrs["__class__"]):
-                for st in self.classes[c].body:
-                    if isinstance(st, ast.Assign) and any(isinstance(t, ast.Name) and t.id == attr for t in st.targets):
-                        return self.ev.eval(st.value, self.genv)
-                    if isinstance(st, ast.AnnAssign) and isinstance(st.target, ast.Name) and st.target.id == attr and st.value is not None:
-                        return self.ev.eval(st.value, self.genv)
+                ns = self._class_namespace(c)
+                if attr in ns:
+                    if isinstance(ns[attr], Undecided):
+                        raise ns[attr]
+                    return ns[attr]
             raise Undecided(f"{obj.attrs['__class__']} has no attribute {attr}")
         if any(dotted(d) == "property" for d in fn.decorator_list):
             return FunctionValue(fn, self.ev, self.genv, self_obj=obj, owner=owner)()
@@ -132,6 +189,25 @@ class ClassWorld:
     def new(self, cls: str, *args: Any, **kwargs: Any) -> Obj:
         o = Obj(self.mro(cls), __class__=cls, name=cls)
         o.resolver = self._resolver
+        fields = self.namedtuple_fields(cls)
+        if fields is not None:
+            node = self.classes[cls]
+            defaults = {st.target.id: st.value for st in node.body
+                        if isinstance(st, ast.AnnAssign) and isinstance(st.target, ast.Name) and st.value is not None}
+            given = dict(zip(fields, args))
+            given.update(kwargs)
+            if len(args) > len(fields) or set(given) - set(fields):
+                raise fde.Raised("TypeError(unexpected arguments for a NamedTuple)")
+            for f in fields:
+                if f in given:
+                    o.attrs[f] = given[f]
+                elif f in defaults:
+                    o.attrs[f] = self.ev.eval(defaults[f], self.genv)
+                else:
+                    raise fde.Raised(f"TypeError(missing field {f})")
+            o.attrs["__fields__"] = list(fields)
+            o.classes |= {"tuple"}
+            return o
         owner, init = self.find_method(cls, "__init__")
         if init is not None:
             FunctionValue(init, self.ev, self.genv, self_obj=o, owner=owner)(*args, **kwargs)
